@@ -375,23 +375,37 @@ func runReopenOnce(d ReopenDesc) (res mon.Result, early bool) {
 
 		if judgeable && op.End != "reset" {
 			var keys, details []string
-			staleSeen := false
+			staleSeen, staleLen := false, 0
 			if op.Drain {
 				g := got
 				e1 := norm(append(dataBytes(ref.data, false), tail...))
 				e2 := norm(append(dataBytes(ref.data, true), tail...))
 				ns := norm(stale)
-				if len(ns) > 0 && !bytes.Equal(g, e1) && !bytes.Equal(g, e2) && bytes.HasPrefix(g, ns) {
-					staleSeen = true
-					g = g[len(ns):]
+				if len(ns) > 0 && !bytes.Equal(g, e1) && !bytes.Equal(g, e2) {
+					// the new connection's data preceded by (part of: a reset cuts anywhere) what earlier connections left
+					for _, e := range [][]byte{e1, e2} {
+						if p := len(g) - len(e); p > 0 && bytes.Equal(g[p:], e) {
+							if ok, _ := isSubseq(g[:p], ns); ok {
+								staleSeen, staleLen = true, p
+								break
+							}
+						}
+					}
+					if !staleSeen && bytes.HasPrefix(g, ns) {
+						staleSeen, staleLen = true, len(ns)
+					}
+					g = g[staleLen:]
 				}
 				if d.Via == "driver" {
 					if !bytes.Equal(g, e1) && !bytes.Equal(g, e2) {
-						kk, dt := judgeData(Desc{Items: op.Items}, stripCRWire(wire), refParse(stripCRWire(wire)), stripCR(tail), g)
-						if kk == "" {
-							kk, dt = "c15/data-mismatch", fmt.Sprintf("channel data %s, expected %s", hx(g), hx(e1))
+						kk := "c15/data-mismatch"
+						if ok, _ := isSubseq(g, e1); ok {
+							kk = "c15/data-lost:via-channel"
+						} else if ok, _ := isSubseq(e1, g); ok {
+							kk = "c15/extra-bytes-in-data"
 						}
-						keys, details = append(keys, kk), append(details, dt)
+						keys = append(keys, kk)
+						details = append(details, fmt.Sprintf("data queued by the channel differs from the reference (CR removed)\n got: %s\nwant: %s\n(opening %s)", hx(g), hx(e1), hx(wire)))
 					}
 				} else if kk, dt := judgeData(Desc{Items: op.Items}, wire, ref, tail, g); kk != "" {
 					keys, details = append(keys, kk), append(details, dt)
@@ -410,10 +424,8 @@ func runReopenOnce(d ReopenDesc) (res mon.Result, early bool) {
 			const earlyMsg = "Open returned before the whole opening had reached the client (negotiation window closed first)"
 			if len(keys) > 0 {
 				g := got
-				if staleSeen {
-					g = g[len(norm(stale)):]
-				}
-				if ok, n := explainedByEarlyStop(normWire(d, wire), norm(tail), g, srv.recv); ok && op.End == "idle" && op.Drain {
+				g = g[staleLen:]
+				if ok, n := explainedByEarlyStop(wire, tail, g, srv.recv, norm); ok && op.End == "idle" && op.Drain {
 					early = true
 					if mon.LoadedSince(t0) {
 						return inconclusive("negotiation window ended early: load canary overshot (after %d of %d bytes)", n, len(wire))
@@ -442,7 +454,7 @@ func runReopenOnce(d ReopenDesc) (res mon.Result, early bool) {
 			}
 			if staleSeen {
 				return viol("c15/stale-data:"+staleFrom, fmt.Sprintf("the first reads of this opening delivered %d byte(s) of an EARLIER connection before the new connection's data\n got: %s\nwant: %s\n(stale: %s; this opening %s)",
-					len(norm(stale)), hx(got), hx(norm(append(dataBytes(ref.data, false), tail...))), hx(norm(stale)), hx(wire)))
+					staleLen, hx(got), hx(norm(append(dataBytes(ref.data, false), tail...))), hx(norm(stale)), hx(wire)))
 			}
 			if k > 0 {
 				judgedLater++
@@ -464,15 +476,6 @@ func runReopenOnce(d ReopenDesc) (res mon.Result, early bool) {
 	}
 	return mon.Result{Verdict: mon.Held, NonTrivial: judgedLater > 0 && dirtyEarlier > 0, Obs: obs, Tags: dedupe(tags),
 		Sample: map[string]interface{}{"via": d.Via, "openings": ev}}, false
-}
-
-func stripCRWire(w []byte) []byte { return stripCR(w) }
-
-func normWire(d ReopenDesc, w []byte) []byte {
-	if d.Via == "driver" {
-		return stripCR(w)
-	}
-	return w
 }
 
 func earlier(d ReopenDesc, k int) string {
